@@ -12,12 +12,14 @@ CONSTANTS
     MaxId,      \* bound on track / lineage ids (state constraint)
     Hist,       \* TRUE: keep the undo/redo stacks in the state and offer undo/redo as calls
     Kinds,      \* call kinds offered by Next
-    EmitCat     \* TRUE: print one access path per distinct state (the catalogue)
+    EmitCat,    \* TRUE: print one access path per distinct state (the catalogue)
+    RegCust     \* TRUE: the custom node attribute is registered as a feature
 
 VARIABLES S, path
 
 DefaultAct == IF HasSeg THEN {"tid", "lid", "pos", "area"} ELSE {"tid", "lid"}
-DefaultReg == IF HasSeg THEN {"time", "tid", "lid", "pos", "area"} ELSE {"time", "tid", "lid", "pos"}
+DefaultReg == (IF HasSeg THEN {"time", "tid", "lid", "pos", "area"} ELSE {"time", "tid", "lid", "pos"})
+              \cup (IF RegCust THEN {"cust"} ELSE {})
 
 EmptyS == [time |-> [n \in Node |-> NoT], E |-> {}, tid |-> [n \in Node |-> None],
            lid |-> [n \in Node |-> None], t2n |-> {}, l2n |-> {}, maxT |-> 0, maxL |-> 0,
@@ -48,17 +50,36 @@ Calls(s) ==
 \* a paint with an existing label must stay in that label's frame (C07 domain note)
 InDomain(s, c) == c[1] = KPaint => (c[4] # 0 /\ Has(s, c[4]) => s.time[c[4]] = c[2])
 
+\* calls used to EXPLORE (a subset of Calls: refused variants and most id / attribute
+\* variety add no new structure; they are still FIRED from every state, see AllX)
+UsedT(s) == {s.tid[n] : n \in Present(s)}
+ExpCalls(s) ==
+    (IF KAddNode \in Kinds /\ ~HasSeg
+       THEN {<<KAddNode, n, t, i, f>> : n \in Node \ Present(s), t \in Times,
+                i \in UsedT(s) \cup {s.maxT + 1} \cup (IF s.maxT <= 1 THEN {s.maxT + 2} ELSE {}), f \in {0, 1}}
+       ELSE {})
+    \cup {c \in Calls(s) : c[1] \in {KAddEdge, KDelEdge, KDelNode, KSwap, KPaint, KUndo, KRedo}}
+    \cup (IF KSetAttr \in Kinds THEN {<<KSetAttr, 1, 1, 1, 0>>} ELSE {})
+
 Trim(s) == IF Hist THEN s ELSE [s EXCEPT !.U = <<>>, !.R = <<>>]
 
 Init == S = EmptyS /\ path = <<>>
-Next == \E c \in Calls(S) : InDomain(S, c) /\ \E r \in StepSet(S, c) :
+Next == \E c \in ExpCalls(S) : InDomain(S, c) /\ \E r \in StepSet(S, c) :
            /\ r.s # S
            /\ S' = Trim(r.s)
            /\ path' = Append(path, c)
 Spec == Init /\ [][Next]_<<S, path>>
 
 Bound == Len(path) <= Depth /\ S.maxT <= MaxId /\ S.maxL <= MaxId
-View  == S
+\* Track / lineage ids matter only through equality and through "larger than all ids in
+\* use", so states are identified up to an order-preserving renaming of the ids.
+Rank(X, i) == Cardinality({j \in X : j <= i})
+UsedL(s) == {s.lid[n] : n \in Present(s)}
+View  == IF LookupOK(Obs(S))
+         THEN << S.time, S.E, [n \in Node |-> Rank(UsedT(S), S.tid[n])], [n \in Node |-> Rank(UsedL(S), S.lid[n])],
+                 S.maxT \in UsedT(S), S.maxL \in UsedL(S), S.cust, S.pos, S.area, S.iou, S.seg, S.act, S.reg,
+                 IF Hist THEN <<S.U, S.R>> ELSE <<>> >>
+         ELSE << S >>
 
 (***************************************************************************)
 (* Every transition out of the current state, as a property record         *)
